@@ -60,6 +60,37 @@ def run(chk):
             if len(v) > 1:
                 chk.violation("capacity-dependence-%s-%s" % (c, k), {"curve": c, "key": k, "distinct_proofs": len(v)},
                               "proof bytes depend on the generator capacity for %s on %s" % (k, c))
+    # batch_verify over the same threshold: one shared table; the padded size of the largest member decides (TLC's grid supplies
+    # (n1, n2); a second, smaller member rides along in half of the batches), every capacity from 0 to one above the threshold
+    from checks.C07 import member, run_jobs
+    from checks.C04 import two_phase
+    jobs = []
+    shapes = sorted({(g["n1"], g["n2"]) for g in grid})
+    for (n1, n2) in shapes:
+        if n2 > 0 and n1 != 1:
+            continue                     # two_phase() has one first-phase gate; the one-phase shapes cover every size
+        big = member(n1, "good", "cb", chk.seed) if n2 == 0 else two_phase(n2, "cb", chk.seed)
+        n = n1 + n2
+        pad = 1
+        while pad < n:
+            pad *= 2
+        for cap in range(0, pad + 2):
+            for extra in ([], [member(max(n - 2, 0), "good", "cbx", chk.seed + 1)]):
+                ms = [big] + extra
+                jobs.append({"id": "capB-n%d-%d-cap%d-%d" % (n1, n2, cap, len(ms)), "members": ms, "seed": chk.seed + 5, "cap": cap,
+                             "kinds": ["good"] * len(ms), "expect": "InvalidGeneratorsLength" if cap < pad else "ok"})
+                jobs.append(dict(jobs[-1], id=jobs[-1]["id"] + "r", members=list(reversed(ms))))
+    for c in vlib.REAL_CURVES:           # (not on toy curves: a zero challenge - inverse().unwrap() - is a degenerate event there)
+        rows, _ = run_jobs(chk, c, jobs)
+        for row in rows:
+            j = row["job"]
+            chk.count_case([c, "batch", j["id"]])
+            chk.cov["replayed_behaviours"] += 1
+            got = row["batch"]
+            bad = got.startswith("panic") or (j["expect"] == "InvalidGeneratorsLength") != (got == "InvalidGeneratorsLength")
+            if bad:
+                chk.violation("threshold-batch-%s-%s" % (c, j["id"]), {"curve": c, "job": j, "batch": got},
+                              "batch_verify with capacity %d returned %s; the threshold says %s" % (j["cap"], got, j["expect"]))
     # (B3) sessions on toy curves in which the capacity is the state of a generator table with a history (new, increases, copies): prove / verify
     # report InvalidGeneratorsLength exactly when the specification's table capacity is below the padded gate count (nothing else is compared)
     for curve, n in (("toy31723", 200 if q else 3000),):
@@ -68,7 +99,7 @@ def run(chk):
         rule="TLC enumerates the full grid (n1, n2, capP, capV) in (0..%d)x(0..%d)x(0..%d)^2, checks ThresholdExact on the guards the protocol "
              "model uses, and prints the expected result of prove and verify for every point; every point is replayed on secq256k1, zorro, "
              "curve25519 and toy31723 (error kind, no panic), and proofs made with the same seed at different sufficient capacities must be "
-             "byte-identical. Recorded sessions on toy31723 whose capacities result from table histories are validated against Library.tla (capacity error iff table capacity < padded size). distinct = distinct (curve, n1, n2, capP, capV)" % mx,
+             "byte-identical. batch_verify (one and two members, both orders) is run at every shared capacity from 0 to one above the threshold of its largest member: the capacity error exactly below the threshold, no panic. Recorded sessions on toy31723 whose capacities result from table histories are validated against Library.tla (capacity error iff table capacity < padded size). distinct = distinct (curve, n1, n2, capP, capV)" % mx,
         assumptions=["second-phase gates are created with allocate_multiplier inside one callback"],
         extra={"exhaustive": True})
 
